@@ -66,6 +66,33 @@ def generate(rng, tier):
             c["r_f32"] = True
             c["desc"].update({"r_grid": "float32", "cutoff": "decimal value of a grid point", "n_r": n_r, "dgr": "none"})
             cases.append(c)
+    # as many r points as Q points, the real-space uncertainty given and the reciprocal-space one left out (and the other way round):
+    # which vector is which is decided by its position / keyword, never by its length
+    for k in range(2):
+        state = rng.getstate()
+        for R in range(3):
+            for Q in range(4):
+                rng.setstate(state)
+                c = FL.gen_filter_case(rng, tier, R, Q, channel=2, sizes=(7, 7))
+                FL.force_uncertainties(rng, c, dgr=(k == 0), dy=(k == 1))
+                c["unc_form"], c["unc_kw"] = "array", False
+                c["desc"].update({"n_r": 7, "n_q": 7, "equal_lengths": True})
+                cases.append(c)
+        rng.random()
+    # the Q grid stored from high to low Q (a bank written in descending order), with point-dependent uncertainties
+    state = rng.getstate()
+    for R in range(3):
+        for Q in range(4):
+            rng.setstate(state)
+            c = FL.gen_filter_case(rng, tier, R, Q, channel=2, sizes=(8, 6))
+            FL.force_uncertainties(rng, c, dgr=True, dy=True)
+            for key in ("q", "y", "dy"):
+                c[key] = list(reversed(c[key]))
+            for key in ("f", "df"):
+                c["common"][key] = list(reversed(c["common"][key]))
+            c["unc_form"] = "array"
+            c["desc"].update({"n_r": 8, "n_q": 6, "q_order": "descending"})
+            cases.append(c)
     # r > 0 and q > 0 so that conversions are invertible
     for c in cases:
         if c["r"][0] == 0.0:
